@@ -34,3 +34,33 @@ def hash_across_processes(n):
             raise AssertionError(f'no key from interpreter {seed}: {p.stderr[-300:]}')
         out.append(json.loads(line[0][4:]))
     return all(o == out[0] for o in out)
+
+
+def hash_distinguishes(n):
+    """In ONE interpreter: n models whose datasets differ pairwise are created one after the other (each dataset object
+    is dropped before the next is built, so CPython may reuse its address) and keyed; all keys must differ.  The key
+    must also ignore name / description and react to a changed initial estimate, statement and estimation step."""
+    import gc
+    import warnings
+    warnings.simplefilter('ignore')
+    from pharmpy.modeling import (load_example_model, set_initial_estimates, set_name, set_description,
+                                  set_additive_error_model, set_estimation_step)
+    from pharmpy.workflows.hashing import ModelHash
+    base = load_example_model('pheno')
+    df0 = base.dataset
+    keys = {}
+    for i in range(n):
+        df = df0.copy()
+        df.loc[df.index[i % len(df)], 'WGT'] = 100.0 + i
+        m = base.replace(dataset=df)
+        k = str(ModelHash(m))
+        del m, df
+        gc.collect()
+        if k in keys:
+            return False
+        keys[k] = i
+    k0 = str(ModelHash(base))
+    same = [set_name(base, 'other'), set_description(base, 'another description')]
+    diff = [set_initial_estimates(base, {'POP_CL': 0.0123}), set_additive_error_model(base),
+            set_estimation_step(base, 'IMP', idx=0)]
+    return all(str(ModelHash(m)) == k0 for m in same) and all(str(ModelHash(m)) != k0 for m in diff)
